@@ -599,6 +599,9 @@ func (e *cbEnv) limitProbeOne(limit uint32, failAt int, external bool) {
 		e.viol(fmt.Sprintf("limit %d: a new colliding key was not refused with the collision-limit error: %s", limit, hx.ErrKind(err)))
 		return
 	}
+	if d := hx.ErrNames(err, "CollisionLimit", limit); d != "" {
+		e.viol(fmt.Sprintf("limit %d: a new colliding key was refused, but %s", limit, d))
+	}
 	e.st.Hit("limit-probe:control-refused")
 	if len(rec.Effs) != 0 || snap() != before {
 		e.viol(fmt.Sprintf("limit %d: the refused insert changed the map or the pending write set", limit))
